@@ -14,6 +14,9 @@ package main
 // Staged operations are saved through both doors of the cache: BugCache.Commit() and (input flag "an")
 // BugCache.CommitAsNeeded(), the one the terminal UI and the bridge exporters use; the latter also on bugs
 // and identities with nothing pending, where it has to succeed and change nothing.
+// Audit round: pulls also go through RepoCache.Pull (pullc), identities are also renamed by the other user (idfor: a diverged
+// identity is refused for ever, so a pull has a refused entity next to new and updated ones), an IdentityCache is held across a pull
+// that replaces it and used afterwards (idhold / idheld), and caches are closed with uncommitted operations.
 
 import (
 	"encoding/json"
@@ -23,6 +26,7 @@ import (
 	"path/filepath"
 	"sort"
 	"strings"
+	"time"
 
 	"github.com/99designs/keyring"
 
@@ -39,9 +43,11 @@ import (
 var c11Words = []string{"kiwi", "mango", "lemon", "plum", "olive", "cedar", "maple", "birch", "quartz", "topaz", "amber", "onyx"}
 
 // identity names: user u takes c11Names[u], c11Names[u+2], ... (never hexadecimal: an id prefix cannot match)
-var c11Names = []string{"ayla", "bert", "cleo", "dina", "egon", "fritz", "gwen", "hugo", "ines", "jost", "kurt", "lotte"}
+// c11Names[12:] are the names given by a rename made by somebody else than the owner (action idfor, idheld on the other's identity)
+var c11Names = []string{"ayla", "bert", "cleo", "dina", "egon", "fritz", "gwen", "hugo", "ines", "jost", "kurt", "lotte", "mira", "nils", "otto", "paul"}
 
 const c11MaxVersions = 6
+const c11ForeignNames = 12 // index of the first foreign name
 
 func init() {
 	for _, set := range [][]string{c11Words, c11Names} {
@@ -137,9 +143,9 @@ var c11Lookups = [][2]int{{0, 0}, {0, 1}, {1, 0}, {2, 1}}
 // ---- input ----
 
 type cAct struct {
-	K     string `json:"k"` // new comment title status label editcomment meta commit push pull remove resolve reopen idmut idsave
+	K     string `json:"k"` // new comment title status label editcomment meta commit push pull pullc remove resolve reopen idmut idsave idfor idhold idheld
 	R     int    `json:"r"`
-	E     int    `json:"e,omitempty"`     // ordinal into the user's sorted local bug ids
+	E     int    `json:"e,omitempty"`     // ordinal into the user's sorted local bug ids; idhold / idheld: whose identity (user index)
 	W     []int  `json:"w,omitempty"`     // words of the text (title / comment / new message)
 	W2    []int  `json:"w2,omitempty"`    // new: words of the message
 	L     int    `json:"l,omitempty"`     // label number / metadata key / comment ordinal
@@ -228,7 +234,7 @@ type cMerge struct {
 }
 
 type cEvent struct {
-	Kind   string   `json:"kind"` // idnew idupd idsave new edit commit commitan push pull remove resolve reopen observe
+	Kind   string   `json:"kind"` // idnew idupd idsave idresolve idstale new edit commit commitan push pull pullc remove resolve reopen observe
 	R      int      `json:"r"`
 	E      int      `json:"e"`
 	Out    string   `json:"out"` // done | fail
@@ -291,8 +297,10 @@ type cSession struct {
 	tags     map[string]bool
 	skip     string
 	nscratch int
-	stop     bool                  // a resolved entity turned out to be locked for ever: the session ends there
-	staged   [2]map[entity.Id]bool // bugs on which this harness left an operation uncommitted (histogram only, the verdict never reads it)
+	stop     bool                       // a resolved entity turned out to be locked for ever: the session ends there
+	staged   [2]map[entity.Id]bool      // bugs on which this harness left an operation uncommitted (histogram only, the verdict never reads it)
+	held     [2][2]*cache.IdentityCache // held[r][k]: the IdentityCache of user k's identity that user r got earlier (idhold) and still holds
+	nforeign int                        // foreign names used so far
 }
 
 func (s *cSession) fail(format string, a ...interface{}) {
@@ -417,8 +425,8 @@ func (s *cSession) refs(repo repository.ClockedRepo, prefix string) [][2]int {
 	return res
 }
 
-// identRefs: (user, number of versions) for identity refs under prefix; the number of versions is
-// recovered from the name of the last version (every version of a user's identity has a fresh name).
+// identRefs: (user, number of versions) for identity refs under prefix; the number of versions is the length of
+// the commit chain under the ref (every version has a fresh name, but both users may rename an identity).
 func (s *cSession) identRefs(repo repository.ClockedRepo, remote string) [][2]int {
 	res := [][2]int{}
 	for u, id := range s.userID {
@@ -432,12 +440,26 @@ func (s *cSession) identRefs(repo repository.ClockedRepo, remote string) [][2]in
 		if err != nil {
 			continue
 		}
-		n := c11NameIdx(i.Name())
-		if n == 99 || n%2 != u {
+		if c11NameIdx(i.Name()) == 99 {
 			s.fail("identity of user %d has an unexpected name %q", u, i.Name())
 			continue
 		}
-		res = append(res, [2]int{u, n/2 + 1})
+		// the number of versions = the length of the commit chain under the ref (read through RepoData, not through the identity package)
+		ref := "refs/identities/" + string(id)
+		if remote != "" {
+			ref = "refs/remotes/" + remote + "/identities/" + string(id)
+		}
+		n := 0
+		h, err := repo.ResolveRef(ref)
+		for err == nil {
+			n++
+			c, e2 := repo.ReadCommit(h)
+			if e2 != nil || len(c.Parents) == 0 {
+				break
+			}
+			h = c.Parents[0]
+		}
+		res = append(res, [2]int{u, n})
 	}
 	return res
 }
@@ -847,6 +869,30 @@ func (s *cSession) commitBug(r int, b *cache.BugCache, asNeeded bool) {
 	s.events = append(s.events, ev)
 }
 
+// idRename: identity k gets a new version (name index) through the loaded IdentityCache ic of user r, saved at once
+func (s *cSession) idRename(r, k int, ic *cache.IdentityCache, name int, asNeeded bool) {
+	u := s.users[r]
+	ev := cEvent{Kind: "idupd", R: r, E: k, V: name}
+	err := ic.Mutate(u.repo, func(m *identity.Mutator) { m.Name = c11Names[name] })
+	if err == nil && asNeeded {
+		s.tags["identity-save:commit-as-needed"] = true
+		err = ic.CommitAsNeeded()
+	} else if err == nil {
+		err = ic.Commit()
+	}
+	if err != nil {
+		ev.Out, ev.Err = "fail", err.Error()
+		s.tags["identity-update-failed"] = true
+	} else {
+		ev.Out = "done"
+		if k == r {
+			u.versions++
+		}
+		s.tags["identity-update"] = true
+	}
+	s.push(ev)
+}
+
 func (s *cSession) do(a cAct) {
 	r := ((a.R % 2) + 2) % 2
 	u := s.users[r]
@@ -1000,24 +1046,145 @@ func (s *cSession) do(a cAct) {
 			s.fail("GetUserIdentity: %v", err)
 			return
 		}
-		name := 2*u.versions + r
-		ev := cEvent{Kind: "idupd", R: r, E: r, V: name}
-		err = ic.Mutate(u.repo, func(m *identity.Mutator) { m.Name = c11Names[name] })
-		if err == nil && a.AN {
-			s.tags["identity-save:commit-as-needed"] = true
-			err = ic.CommitAsNeeded()
-		} else if err == nil {
-			err = ic.Commit()
+		s.idRename(r, r, ic, 2*u.versions+r, a.AN)
+	case "idfor":
+		// the identity of the OTHER user is renamed here (the same person on two machines, a maintainer fixing a name): the
+		// owner's next rename makes the two histories diverge, which the fast-forward only policy refuses for ever
+		k := 1 - r
+		if s.nforeign >= len(c11Names)-c11ForeignNames {
+			return
 		}
+		ic, err := c.Identities().Resolve(s.userID[k])
+		if err != nil {
+			return // not known here yet
+		}
+		name := c11ForeignNames + s.nforeign
+		s.nforeign++
+		s.idRename(r, k, ic, name, a.AN)
+		s.tags["foreign-identity-rename"] = true
+	case "idhold":
+		// the user gets (and keeps) the IdentityCache of identity k, as every program does with its user identity
+		k := ((a.E % 2) + 2) % 2
+		ev := cEvent{Kind: "idresolve", R: r, E: k, Out: "done"}
+		ic, err := c.Identities().Resolve(s.userID[k])
+		if err != nil {
+			return
+		}
+		s.held[r][k] = ic
+		s.push(ev)
+	case "idheld":
+		// a rename made through the IdentityCache obtained earlier. When a pull has replaced the loaded instance in the meantime
+		// the held one knows an older history: its commit must not take the pulled versions away from the reference.
+		k := ((a.E % 2) + 2) % 2
+		ic := s.held[r][k]
+		if ic == nil {
+			return
+		}
+		name := 2*u.versions + r
+		if k != r {
+			if s.nforeign >= len(c11Names)-c11ForeignNames {
+				return
+			}
+			name = c11ForeignNames + s.nforeign
+		} else if u.versions >= c11MaxVersions {
+			return
+		}
+		cur, err := c.Identities().Resolve(s.userID[k])
+		if err != nil {
+			return
+		}
+		if k != r {
+			s.nforeign++
+		}
+		if cur == ic {
+			// still the loaded instance: an ordinary rename (the Resolve above is the one of the model's event)
+			s.idRename(r, k, ic, name, a.AN)
+			break
+		}
+		s.push(cEvent{Kind: "idresolve", R: r, E: k, Out: "done"})
+		// (an instance that was evicted instead of replaced is locked for ever: never wait for it)
+		done := make(chan error, 1)
+		go func() {
+			err := ic.Mutate(u.repo, func(m *identity.Mutator) { m.Name = c11Names[name] })
+			if err == nil {
+				err = ic.Commit()
+			}
+			done <- err
+		}()
+		select {
+		case err = <-done:
+		case <-time.After(3 * time.Second):
+			s.tags["held-identity-handle-locked"] = true
+			s.held[r][k] = nil
+			return
+		}
+		ev := cEvent{Kind: "idstale", R: r, E: k, V: name}
+		s.tags["stale-identity-handle-commit"] = true
 		if err != nil {
 			ev.Out, ev.Err = "fail", err.Error()
-			s.tags["identity-update-failed"] = true
 		} else {
 			ev.Out = "done"
-			u.versions++
-			s.tags["identity-update"] = true
+			s.tags["stale-identity-handle-commit-accepted"] = true
+			if k == r {
+				u.versions++
+			}
 		}
+		s.held[r][k] = nil
 		s.push(ev)
+	case "pullc":
+		// RepoCache.Pull: Fetch + MergeAll behind one call that only reports the first failure
+		ev := cEvent{Kind: "pullc", R: r, E: -1}
+		if _, err := c.Fetch("origin"); err != nil {
+			ev.Kind, ev.Out, ev.Err = "pull", "fail", err.Error()
+			s.push(ev)
+			return
+		}
+		s.refs(u.repo, "refs/remotes/origin/bugs/")
+		// what MergeAll is going to walk, in its order: the identities, then the bugs, each as ListRefs gives them
+		for _, ns := range []string{"identities", "bugs"} {
+			names, err := u.repo.ListRefs("refs/remotes/origin/" + ns + "/")
+			if err != nil {
+				s.fail("ListRefs: %v", err)
+				return
+			}
+			for _, n := range names {
+				id := entity.Id(n[strings.LastIndex(n, "/")+1:])
+				m := cMerge{ID: string(id), Status: "unknown"}
+				if ns == "identities" {
+					uu := s.userOf(id)
+					if uu == 99 {
+						s.fail("unknown identity %s", id)
+						return
+					}
+					m.Ident, m.E = true, uu
+				} else {
+					m.E = s.ent(id)
+				}
+				ev.Merges = append(ev.Merges, m)
+			}
+		}
+		before := len(s.g.commits)
+		s.tags["pull:repo-cache-pull"] = true
+		if err := c.Pull("origin"); err != nil {
+			ev.Out, ev.Err = "fail", err.Error()
+			s.tags["pull:repo-cache-pull-reports-failure"] = true
+			// (code as found: whatever still runs in the background settles)
+			time.Sleep(150 * time.Millisecond)
+		} else {
+			ev.Out = "done"
+		}
+		s.gitObserve(&ev)
+		for _, ci := range s.newCommits(before) {
+			root := s.g.root(ci)
+			for k := range ev.Merges {
+				if !ev.Merges[k].Ident && ev.Merges[k].E == root && ev.Merges[k].NewIdx == 0 {
+					ev.Merges[k].NewIdx = ci
+					s.tags["merge-commit"] = true
+					break
+				}
+			}
+		}
+		s.events = append(s.events, ev)
 	case "idsave":
 		// CommitAsNeeded on the user's own identity, which has no pending version: success, nothing written
 		ic, err := c.GetUserIdentity()
@@ -1143,6 +1310,10 @@ func (s *cSession) do(a cAct) {
 		s.tags["resolve-many"] = true
 	case "reopen":
 		ev := cEvent{Kind: "reopen", R: r, E: -1, Wipe: a.Wipe % 3}
+		if len(s.staged[r]) > 0 {
+			s.tags["reopen-with-staged-operations"] = true
+		}
+		s.held[r] = [2]*cache.IdentityCache{}
 		if err := c.Close(); err != nil {
 			s.fail("close: %v", err)
 			return
@@ -1351,13 +1522,122 @@ func genC11(r *Rand, maxActions int) cInput {
 			}
 			in.Actions = append(in.Actions, cAct{K: "resolve", R: rep, Es: es, Rot: rot})
 		default:
-			// closing a cache loses what is staged by definition: commit first
-			in.Actions = append(in.Actions, commit(rep, rot))
+			// closing a cache loses what is staged: usually commit first (1 in 4: not, see closeStaged)
+			if r.Chance(3, 4) {
+				in.Actions = append(in.Actions, commit(rep, rot))
+			}
 			w := 0
 			if r.Chance(1, 3) {
 				w = 1 + r.Intn(2)
 			}
 			in.Actions = append(in.Actions, cAct{K: "reopen", R: rep, Wipe: w, Rot: r.Intn(5)})
+		}
+	}
+	// One session in three ends with one of three situations found by the audit of the unchanged tree (each is a family, drawn at random):
+	pull := func(rep int) cAct {
+		if r.Chance(1, 2) {
+			return cAct{K: "pullc", R: rep, Rot: r.Intn(5)}
+		}
+		return cAct{K: "pull", R: rep, Rot: r.Intn(5)}
+	}
+	push := func(rep int) cAct { return cAct{K: "push", R: rep, Rot: r.Intn(5)} }
+	// publish: rep brings its repository up to date and pushes, so that the push is a fast-forward
+	publish := func(rep int) {
+		in.Actions = append(in.Actions, commit(rep, r.Intn(5)), cAct{K: "pull", R: rep, Rot: r.Intn(5)}, push(rep))
+	}
+	switch r.Intn(9) {
+	case 0:
+		// refusedPull: one entity of a pull is refused for ever (an identity edited on both sides: fast-forward only) while other
+		// identities and bugs of the same pull are new or updated; the pull goes through RepoCache.Pull, which only reports the failure.
+		// Everything the pull merged has to be served at once, after a reopen, and by the pulls that follow.
+		rep := r.Intn(2)
+		publish(1 - rep)
+		in.Actions = append(in.Actions, commit(rep, r.Intn(5)), cAct{K: "pull", R: rep, Rot: r.Intn(5)})
+		// both sides give the identity of 1-rep a new version (in either order)
+		if r.Bool() {
+			in.Actions = append(in.Actions, cAct{K: "idfor", R: rep, Rot: r.Intn(5), AN: r.Bool()}, cAct{K: "idmut", R: 1 - rep, Rot: r.Intn(5)})
+		} else {
+			in.Actions = append(in.Actions, cAct{K: "idmut", R: 1 - rep, Rot: r.Intn(5)}, cAct{K: "idfor", R: rep, Rot: r.Intn(5), AN: r.Bool()})
+		}
+		// ... and 1-rep has news: new bugs, edits of known bugs
+		for i, k := 0, r.Range(1, 3); i < k; i++ {
+			if r.Chance(1, 2) {
+				in.Actions = append(in.Actions, newBug(1-rep))
+			} else {
+				in.Actions = append(in.Actions, edit(1-rep, r.Intn(5), false))
+			}
+		}
+		if r.Chance(1, 3) {
+			in.Actions = append(in.Actions, cAct{K: "idmut", R: rep, Rot: r.Intn(5)})
+		}
+		in.Actions = append(in.Actions, push(1-rep), cAct{K: "pullc", R: rep, Rot: r.Intn(5)})
+		for i, k := 0, r.Intn(4); i < k; i++ {
+			switch r.Intn(5) {
+			case 0:
+				in.Actions = append(in.Actions, cAct{K: "reopen", R: rep, Rot: r.Intn(5)})
+			case 1:
+				in.Actions = append(in.Actions, edit(rep, r.Intn(5), false))
+			case 2:
+				in.Actions = append(in.Actions, newBug(1-rep), push(1-rep))
+			default:
+				in.Actions = append(in.Actions, pull(rep))
+			}
+		}
+	case 1:
+		// staleHandle: rep holds the IdentityCache of an identity (k: its own, or the other user's), the other user gives that identity a
+		// new version and publishes it, rep pulls (the loaded instance is replaced), then renames through the instance it still holds:
+		// refused, or on top of the pulled version, but never instead of it.
+		rep := r.Intn(2)
+		k := rep
+		if r.Chance(1, 3) {
+			k = 1 - rep
+		}
+		publish(rep)
+		publish(1 - rep)
+		in.Actions = append(in.Actions, cAct{K: "pull", R: rep, Rot: r.Intn(5)}, cAct{K: "idhold", R: rep, E: k, Rot: r.Intn(5)})
+		if r.Chance(1, 3) {
+			in.Actions = append(in.Actions, edit(rep, r.Intn(5), r.Chance(1, 4)))
+		}
+		if k == rep {
+			in.Actions = append(in.Actions, cAct{K: "idfor", R: 1 - rep, Rot: r.Intn(5)})
+		} else {
+			in.Actions = append(in.Actions, cAct{K: "idmut", R: 1 - rep, Rot: r.Intn(5), AN: r.Bool()})
+		}
+		in.Actions = append(in.Actions, push(1-rep), pull(rep), cAct{K: "idheld", R: rep, E: k, Rot: r.Intn(5), AN: r.Bool()})
+		for i, n := 0, r.Intn(3); i < n; i++ {
+			switch r.Intn(4) {
+			case 0:
+				in.Actions = append(in.Actions, push(rep))
+			case 1:
+				in.Actions = append(in.Actions, cAct{K: "idmut", R: rep, Rot: r.Intn(5)})
+			case 2:
+				in.Actions = append(in.Actions, cAct{K: "reopen", R: rep, Rot: r.Intn(5)})
+			default:
+				in.Actions = append(in.Actions, pull(rep))
+			}
+		}
+	case 2:
+		// closeStaged: the cache is closed while edits are uncommitted (the commit failed, the program stopped): they are lost, and the
+		// reopened cache has to serve what the repository holds
+		rep := r.Intn(2)
+		for i, n := 0, r.Range(1, 3); i < n; i++ {
+			in.Actions = append(in.Actions, edit(rep, r.Intn(3), !r.Chance(1, 4)))
+		}
+		in.Actions = append(in.Actions, edit(rep, r.Intn(3), true))
+		w := 0
+		if r.Chance(1, 5) {
+			w = 1 + r.Intn(2)
+		}
+		in.Actions = append(in.Actions, cAct{K: "reopen", R: rep, Wipe: w, Rot: r.Intn(5)})
+		for i, n := 0, r.Intn(3); i < n; i++ {
+			switch r.Intn(3) {
+			case 0:
+				in.Actions = append(in.Actions, edit(rep, r.Intn(3), false))
+			case 1:
+				in.Actions = append(in.Actions, cAct{K: "reopen", R: rep, Rot: r.Intn(5)})
+			default:
+				in.Actions = append(in.Actions, pull(rep))
+			}
 		}
 	}
 	return in
@@ -1644,6 +1924,27 @@ func (s *cSession) coqCase() string {
 			h = fmt.Sprintf("HEv (VCommitAsNeeded %d %d %d%%N %d%%N)", ev.R, ev.E, pid, a)
 		case "idsave":
 			h = fmt.Sprintf("HEv (VIdCommitAsNeeded %d %d)", ev.R, ev.E)
+		case "idresolve":
+			h = fmt.Sprintf("HEv (VIdResolve %d %d)", ev.R, ev.E)
+		case "idstale":
+			h = fmt.Sprintf("HStale %d %d %s", ev.R, ev.E, coqBool(ev.Out != "done"))
+			out = "CDone"
+		case "pullc":
+			var ims, bms []string
+			for _, m := range ev.Merges {
+				if m.Ident {
+					ims = append(ims, fmt.Sprint(m.E))
+				} else {
+					mid, mau := 0, 0
+					if m.NewIdx > 0 {
+						c := s.g.commits[m.NewIdx]
+						mid, mau = pr.m[c.PackID], au(c.Author)
+					}
+					bms = append(bms, fmt.Sprintf("(%d, %d%%N, %d%%N)", m.E, mid, mau))
+				}
+			}
+			h = fmt.Sprintf("HPull (VPull %d %s %s) %s", ev.R, coqList(ims), coqList(bms), coqBool(ev.Out != "done"))
+			out = "CDone"
 		case "push":
 			h = fmt.Sprintf("HEv (VPush %d)", ev.R)
 		case "pull":
